@@ -218,6 +218,17 @@ Definition broadcast_field (reversed scalar bh bw bc : bool) : Z :=
 Definition addr_lo (a : Z) : Z := Z.land a 4294967295.
 Definition addr_hi (a : Z) : Z := Z.land (Z.shiftr a 32) 65535.
 
+(* generate_scaling_for_elementwise, "advanced" ADD/SUB branch: scaling.advanced_elementwise_add_sub_scale answers
+   OPa when input1 = IFM has the smaller scale, else OPb; for reversed operands the generator swaps the answer
+   (`if op_to_scale == OPa: OPb else: OPa`); the result goes to IFM_PRECISION[9:8]. *)
+Definition op_to_scale_ref (ifm_smaller : bool) : Z := if ifm_smaller then scale_OPa else scale_OPb.
+Definition swap_operand (m : Z) : Z := if m =? scale_OPa then scale_OPb else scale_OPa.
+Definition scale_mode (reversed : bool) (m : Z) : Z := if reversed then swap_operand m else m.
+(* decoder side (register documentation): IFM2_BROADCAST bit 6 set makes IFM2 operand A; scale mode 1 rescales
+   operand A with the 32-bit OPA_SCALE, scale mode 2 operand B.  true = the rescaled feature map is IFM *)
+Definition rescaled_is_ifm (operand_order : bool) (mode : Z) : bool :=
+  if operand_order then mode =? 2 else mode =? 1.
+
 (* get_strides (default strides): (stride_c, stride_y, stride_x) *)
 Definition default_strides (nhcwb16 : bool) (elem w d : Z) : Z * Z * Z :=
   if nhcwb16 then
